@@ -214,15 +214,14 @@ type failure struct{ v any }
 // panic is re-raised on the caller's goroutine so that rapid can shrink.
 func Run(tt *testing.T, rt *rapid.T, body func(e *Env)) {
 	var saved *failure
-	var leak string
-	func() {
+	inner := func(bt *testing.T) {
 		defer func() {
 			// synctest.Test itself panics (deadlock) if goroutines remain blocked
 			if r := recover(); r != nil && saved == nil {
 				saved = &failure{r}
 			}
 		}()
-		synctest.Test(tt, func(t *testing.T) {
+		synctest.Test(bt, func(t *testing.T) {
 			e := &Env{RT: rt, TT: t, Net: NewNet(), Log: &History{start: time.Now()}}
 			defer func() {
 				if r := recover(); r != nil {
@@ -232,10 +231,25 @@ func Run(tt *testing.T, rt *rapid.T, body func(e *Env)) {
 			}()
 			body(e)
 		})
-	}()
-	_ = leak
+	}
+	if !raceOn || rt == nil {
+		inner(tt)
+		if saved != nil {
+			panic(saved.v)
+		}
+		return
+	}
+	// Built with -race: the testing package marks the bubble's T failed when the race detector
+	// reported while it ran, and synctest.Test then calls FailNow on the T it was given, which
+	// would end the whole rapid run without saying which case raced. Each case therefore runs
+	// in a subtest of its own: only the subtest ends, and the case is failed through rapid, which
+	// prints its draws (the plan) next to the detector's report.
+	ok := tt.Run("case", inner)
 	if saved != nil {
 		panic(saved.v)
+	}
+	if !ok {
+		rt.Fatalf("the race detector reported a data race while this case ran (see the WARNING: DATA RACE report above); the case's draws follow")
 	}
 }
 
